@@ -39,6 +39,16 @@ def kind_template(kind, label, token=True):
                                  (C.CKA_ALLOWED_MECHANISMS, mechlist(M17)),
                                  (C.CKA_WRAP_TEMPLATE, [(C.CKA_ENCRYPT, True), (C.CKA_VALUE_LEN, 16), (C.CKA_LABEL, b"inner-label")]),
                                  (C.CKA_UNWRAP_TEMPLATE, [(C.CKA_SENSITIVE, False), (C.CKA_KEY_TYPE, C.CKK_AES)])])
+    if kind == "aes-tpl-bytes":
+        # nested templates whose HIGHEST-numbered entry (the last one on disk) is a byte string - non-empty in one, empty in the other
+        return F.template("aes128", token=token, private=True, label=label, ident=b"tplb",
+                          extra=[(C.CKA_WRAP, True), (C.CKA_UNWRAP, True), (C.CKA_WRAP_TEMPLATE, [(C.CKA_CLASS, C.CKO_SECRET_KEY), (C.CKA_KEY_TYPE, C.CKK_AES), (C.CKA_ID, b"inner-id")]),
+                                 (C.CKA_UNWRAP_TEMPLATE, [(C.CKA_CLASS, C.CKO_SECRET_KEY), (C.CKA_ID, b"")])])
+    if kind == "aes-tpl-mechs":
+        # ... and a mechanism set (non-empty / empty) as the last entry
+        return F.template("aes128", token=token, private=False, label=label, ident=b"tplm",
+                          extra=[(C.CKA_WRAP, True), (C.CKA_UNWRAP, True), (C.CKA_WRAP_TEMPLATE, [(C.CKA_KEY_TYPE, C.CKK_AES), (C.CKA_ALLOWED_MECHANISMS, mechlist([C.CKM_AES_CBC, C.CKM_AES_ECB]))]),
+                                 (C.CKA_UNWRAP_TEMPLATE, [(C.CKA_KEY_TYPE, C.CKK_AES), (C.CKA_END_DATE, b"20300101")])])
     if kind == "aes-plain":
         return F.template("aes128", token=token, private=False, label=label, ident=b"", extra=[(C.CKA_ALLOWED_MECHANISMS, mechlist([C.CKM_AES_CBC]))])
     if kind == "aes-noset":
@@ -70,7 +80,7 @@ class Model:
 class C05(CheckBase):
     ID = "C05"
 
-    def __init__(self, ladder=tuple(LADDER_QUICK), kinds=("aes-rich", "aes-plain", "aes-noset", "rsa1024_priv", "cert", "ec256_pub", "session-aes", "session-prv"), max_objs=2):
+    def __init__(self, ladder=tuple(LADDER_QUICK), kinds=("aes-rich", "aes-tpl-bytes", "aes-tpl-mechs", "aes-plain", "aes-noset", "rsa1024_priv", "cert", "ec256_pub", "session-aes", "session-prv"), max_objs=2):
         self.kw = dict(ladder=tuple(ladder), kinds=tuple(kinds), max_objs=max_objs)
         self.ladder, self.kinds, self.max_objs = list(ladder), list(kinds), max_objs
 
@@ -280,7 +290,7 @@ class C05(CheckBase):
                         enc = v
                 elif k == 4:
                     enc = tuple(sorted((tt, vv) for tt, vv in dv.items()))
-                    v = tuple(sorted((tt, (tuple(vv) if isinstance(vv, (list, tuple)) else vv)) for tt, vv in v))
+                    v = tuple(sorted((tt, (tuple(sorted(vv)) if (isinstance(vv, (list, tuple)) and tt == C.CKA_ALLOWED_MECHANISMS) else (tuple(vv) if isinstance(vv, (list, tuple)) else vv))) for tt, vv in v))
                 if enc != v:
                     raise Violation("C05|decoder|value-differs-from-api|kind=%d|%s" % (k, C.CKA_NAMES.get(t, hex(t))), {"label": lab, "api": v, "file": dv})
                 ctx.count("decoder_values_compared")
